@@ -110,11 +110,11 @@ every output × 3 configurations; float-valued workbooks (0.1+0.2, 1/3, 16–17-
 compared EXACTLY. quick 1 534 cases ≈ 16–22 s; thorough 15 870 ≈ 170–220 s."""
 AS['C09'] = """**As built.** Model `Model/Failure.lean` on Engine (`State (Except Fail α)`, lifted semantics, `Sem` with raise / raise-on-k-th
 call / captured-message counts / CSE flag, exception mapping of `eval_func`, transient state `errs`/`ctx`/`graphTodos`/
-`rangeTodos`/`calls`, `Discipline` asWritten vs repaired, iterative one-pass `evalI` with wip flags). 22 theorems: `C09_inv`,
+`rangeTodos`/`calls`, `Discipline` asWritten vs repaired, iterative one-pass `evalI` with wip flags). 24 theorems: `C09_inv`,
 `C09_inv_history`, `C09_never_stale`, `C09_retry`, `C09_dependant_fails`, `C09_unrelated(_cone)`, `C09_repair(_fresh)`,
 `C09_repaired_balanced` vs `C09_asWritten_not_balanced` + `C09_assert_counterexample`, `C09_iter_restored`,
-`C09_iter_wip_counterexample`; partial: `C09_iter_retry_partial` (failing cell itself; transitive dependants in a cyclic graph by
-correspondence only). Correspondence: fixed workbooks × every formula cell failing × fault kinds × histories, random DAGs with
+`C09_iter_wip_counterexample`, `C09_iter_dependant_fails` / `C09_iter_dependant_retry` (every graph, cycles allowed: a cell that
+reaches the broken cell through formula cells raises again, never a value, never a bare assertion). Nothing is partial any more. Correspondence: fixed workbooks × every formula cell failing × fault kinds × histories, random DAGs with
 ranges/CSE/captured #VALUE!, plain and iterative; oracle = fresh compiler of the repaired workbook; exception classes
 canonicalised to `pycel:*` / `bare:*`; 13 exception classes × 9 argument shapes, hostile formula text, whole-column / intersection /
 defined-name readers (oracle-only), ≥ 3 retries before and 2 after the repair. quick 996 cases ≈ 20–30 s; thorough 6 854 ≈ 2.5 min."""
@@ -131,7 +131,7 @@ inexact kernels compared with `num_close` 1e-12, everything else exactly. quick 
 ≈ 100–150 s."""
 AS['C11'] = """**As built.** Model `Model/Addr.lean` (cells, rectangles with 0 = unbounded, `Res`, printers for coordinate/abs/address/
 quoted/R1C1, a parser following `AddressRange.create` line by line, `&`/`**` on operands, offsets), limits and R1C1 combos
-regenerated into `Generated/AddrLimits.lean`. 48 theorems (incl. `C11_cells_sheet`, `C11_cells_resheet`, `C11_resheet` —
+regenerated into `Generated/AddrLimits.lean`. 50 theorems (incl. `C11_operand_assoc_sheets`, `C11_r1c1_abs_range`, `C11_cells_sheet`, `C11_cells_resheet`, `C11_resheet` —
 enumeration is a function of the address value alone —, `C11_inter_spec_unbounded`, `C11_inter_cells_unbounded` for
 whole-row/column operands and the mixed-sheet laws `C11_sheet_rule`, `C11_comm_sheets`, `C11_assoc_sheets`,
 `C11_union_assoc_all_sheets`): `limits_spec`, `C11_col_roundtrip` (every n), `C11_sheet_quote_roundtrip`,
@@ -144,9 +144,9 @@ malformed stream (every string ≤ 3/4 chars over 12 characters + mutations), un
 row 1048576, mixed sheet qualification on pairs and triples. quick ≈ 48 600 cases ≈ 10–26 s; thorough ≈ 181 000 ≈ 80 s."""
 AS['C12'] = """**As built.** Model `Model/Validate.lean` + `ValidateInst.lean` on the Engine workbook: the LIFO work-list exactly as coded
 (reset without dependants, recompute from whatever the precedents hold now, value left behind, later mismatch overwrites), report
-classes, `close_enough` on `Val`. 15 theorems: `C12_terminates`, `C12_sound(_mismatch/_engine/_inst)`, `C12_complete`, `C12_blame`,
-`C12_blame_total`, `C12_failed_justified` (weaker than wished: some formula raises that class, not necessarily below the reported
-cell), `C12_no_skip(_reach)` with the skip rules as explicit exclusions, `closeVal_refl`, `closeVal_tol_zero`,
+classes, `close_enough` on `Val`. 17 theorems: `C12_terminates`, `C12_sound(_mismatch/_engine/_inst)`, `C12_complete`, `C12_blame`,
+`C12_blame_total`, `C12_failed_blame` (every cell listed under exceptions/not-implemented is, or transitively reads, a formula that raises that
+class; `_set` corollary; `C12_failed_justified` kept), `C12_no_skip(_reach)` with the skip rules as explicit exclusions, `closeVal_refl`, `closeVal_tol_zero`,
 `closeVal_logical_number`, `C12_strict_tol_counterexample`. Correspondence: real `validate_calcs` on .xlsx files written by
 `xlsxwriter_min` with stored results from a fresh evaluation; each formula cell perturbed in turn (far / just beyond / within
 tolerance, text, logical, logical↔equal number, error, blank, "", formula text) × tolerance {None, 0, 1/1024, 1/2, 2} × outputs ×
